@@ -26,7 +26,7 @@ class Plan:
             if tok[0] == "O":
                 k = f[1]
                 d = dict(kind=k.rstrip("0123456789"), x=int(re.sub(r"\D", "", k) or 0), outcome=f[2], when=f[3])
-                d["shared"] = d["kind"] in ("S", "RS")
+                d["shared"] = d["kind"] in ("S", "RS", "SO")
                 d["lazy"] = d["kind"] == "LT"
                 self.os.append(d)
             elif tok[0] == "X":
